@@ -394,3 +394,138 @@ Check base_from_root : forall attrs, have_base_address attrs = false -> unit_bas
 Check no_panic : forall be fmt64 version asz attrs rstart lstart rtbl ltbl, unit_wf rtbl ltbl ->
   unit_write_lists be fmt64 version asz attrs rstart lstart rtbl ltbl <> Panic /\
   unit_write_lists be fmt64 version asz attrs rstart lstart rtbl ltbl <> OutOfFuel.
+
+(* ================================================================ GLUE with C11 (the DIE side) — Model/UnitGlueWr.v, stream c11.glue
+   The value Unit::write puts into DW_AT_ranges = RangeListRef(id) / DW_AT_location = LocationListRef(id) is
+   offsets.get(id), the number RangeListTable::write / LocationListTable::write returned for that list (UnitWr.av_write
+   with wc_rng / wc_loc = those results: that is how Model/UnitGlueWr.gunit_write builds the DIE writer's context).
+   Compositions of C11 attr_read_by_reader, C03's Attribute::value() model and the theorems above
+   (Proofs/WriterGlueProofs.v). *)
+Require GV.Spec.UnitWrSpec GV.Model.UnitWr GV.Proofs.UnitRoundtrip GV.Proofs.AttrProofs GV.Spec.FormSpec GV.Model.Attr
+        GV.Model.OpWr GV.Model.UnitGlueWr GV.Proofs.WriterGlueProofs.
+
+(* the attribute step: C03's reader (Attr.parse_attribute under the specification the writer stores: sec_offset, or
+   data4/data8 in DWARF 2/3) reads the written bytes back, Attribute::value() makes it RangeListsRef(o) /
+   LocationListsRef(o), and C08's Dwarf::attr_ranges_offset / attr_locations_offset return o = the list writer's offset
+   of list i *)
+Theorem ranges_attr_roundtrip : forall (dbg dbg' : bool) (cx : UnitWr.wcx) (i : nat) (ops : list UnitWr.wop)
+    (rest : list byte) (u : ListsRd.uctx),
+  UnitWr.av_write dbg cx (UnitWr.AvRangeListRef i) = Ok ops ->
+  (forall o, nth_error (UnitWr.wc_rng cx) i = Some o -> o < 2 ^ 64) ->
+  AttrProofs.addr_size_ok (UnitRoundtrip.renc cx) -> ListsRd.u_dwo u = false ->
+  exists o val,
+    nth_error (UnitWr.wc_rng cx) i = Some o /\
+    Attr.parse_attribute dbg' (UnitRoundtrip.renc cx)
+       (Attr.mkSpec 85 (fst (UnitWr.av_form (UnitWr.wc_enc cx) (UnitWr.AvRangeListRef i))) 0)
+       (UnitWr.ops_bytes ops ++ rest) = Ok (val, rest) /\
+    ListsRd.attr_ranges_offset u (WriterGlueProofs.lrd_aval (Attr.attr_normalise 85 val)) = Ok (Some o).
+Proof. exact (fun dbg dbg' cx i ops rest u => WriterGlueProofs.list_ref_attr_offset dbg dbg' cx false i ops rest u). Qed.
+
+Theorem locations_attr_roundtrip : forall (dbg dbg' : bool) (cx : UnitWr.wcx) (i : nat) (ops : list UnitWr.wop)
+    (rest : list byte) (u : ListsRd.uctx),
+  UnitWr.av_write dbg cx (UnitWr.AvLocationListRef i) = Ok ops ->
+  (forall o, nth_error (UnitWr.wc_loc cx) i = Some o -> o < 2 ^ 64) ->
+  AttrProofs.addr_size_ok (UnitRoundtrip.renc cx) -> ListsRd.u_dwo u = false ->
+  exists o val,
+    nth_error (UnitWr.wc_loc cx) i = Some o /\
+    Attr.parse_attribute dbg' (UnitRoundtrip.renc cx)
+       (Attr.mkSpec 2 (fst (UnitWr.av_form (UnitWr.wc_enc cx) (UnitWr.AvLocationListRef i))) 0)
+       (UnitWr.ops_bytes ops ++ rest) = Ok (val, rest) /\
+    ListsRd.attr_locations_offset u (WriterGlueProofs.lrd_aval (Attr.attr_normalise 2 val)) = Ok (Some o).
+Proof. exact (fun dbg dbg' cx i ops rest u => WriterGlueProofs.list_ref_attr_offset dbg dbg' cx true i ops rest u). Qed.
+
+(* composed with write_read_by_reader_v5: from the DIE attribute to the supplied list, DWARF 5.  The DIE writer's
+   context carries the list writers' results (Hcx); the offsets fit the address space (Hfit). *)
+Theorem ranges_locations_attr_roundtrip_v5 : forall (dbg dbg' rdbg be fmt64 : bool) (asz : N) attrs (rstart lstart : N)
+    rtbl ltbl (rb lb : list byte) (ro lo : list N) (rsec lsec other : list byte) (cx : UnitWr.wcx) (u : ListsRd.uctx),
+  unit_write_lists be fmt64 5 asz attrs rstart lstart rtbl ltbl = Ok ((rb, ro), (lb, lo)) ->
+  N.of_nat (length rsec) = rstart -> N.of_nat (length lsec) = lstart -> unit_wf rtbl ltbl ->
+  UnitWr.wc_enc cx = UnitWrSpec.mkEnc 5 fmt64 asz /\ UnitWr.wc_be cx = be /\ UnitWr.wc_rng cx = ro /\ UnitWr.wc_loc cx = lo ->
+  Forall (fun o => o < 2 ^ 64) (ro ++ lo) ->
+  AttrProofs.addr_size_ok (UnitRoundtrip.renc cx) -> ListsRd.u_dwo u = false -> size_ok asz ->
+  (forall i l ops rest, nth_error rtbl i = Some l -> UnitWr.av_write dbg cx (UnitWr.AvRangeListRef i) = Ok ops ->
+     exists o val es,
+       Attr.parse_attribute dbg' (UnitRoundtrip.renc cx)
+          (Attr.mkSpec 85 (fst (UnitWr.av_form (UnitWr.wc_enc cx) (UnitWr.AvRangeListRef i))) 0)
+          (UnitWr.ops_bytes ops ++ rest) = Ok (val, rest) /\
+       ListsRd.attr_ranges_offset u (WriterGlueProofs.lrd_aval (Attr.attr_normalise 85 val)) = Ok (Some o) /\
+       ents_of (map loc_of_range l) = Some es /\
+       ListsRd.raw_ranges_all rdbg (rd_cfg be asz 5) other (rsec ++ rb) o = Ok (map ListsRd.EvItem (map tr_ent es)) /\
+       forall x base, N.of_nat (length (ListsRd.x_addr x)) < two64 ->
+         exists rs, meaning_rng asz base l = Some rs /\
+           ListsRd.ranges_all rdbg (rd_cfg be asz 5) x other (rsec ++ rb) o base = Ok (map ListsRd.EvItem rs)) /\
+  (forall i l ops rest, nth_error ltbl i = Some l -> UnitWr.av_write dbg cx (UnitWr.AvLocationListRef i) = Ok ops ->
+     exists o val es,
+       Attr.parse_attribute dbg' (UnitRoundtrip.renc cx)
+          (Attr.mkSpec 2 (fst (UnitWr.av_form (UnitWr.wc_enc cx) (UnitWr.AvLocationListRef i))) 0)
+          (UnitWr.ops_bytes ops ++ rest) = Ok (val, rest) /\
+       ListsRd.attr_locations_offset u (WriterGlueProofs.lrd_aval (Attr.attr_normalise 2 val)) = Ok (Some o) /\
+       ents_of l = Some es /\
+       ListsRd.raw_locations_all rdbg (rd_cfg be asz 5) false other (lsec ++ lb) o = Ok (map ListsRd.EvItem (map tr_loc es)) /\
+       forall x base, N.of_nat (length (ListsRd.x_addr x)) < two64 ->
+         exists rs, meaning_loc asz base l = Some rs /\
+           ListsRd.locations_all rdbg (rd_cfg be asz 5) false x other (lsec ++ lb) o base = Ok (map ListsRd.EvItem rs)).
+Proof.
+  intros dbg dbg' rdbg be fmt64 asz attrs rstart lstart rtbl ltbl rb lb ro lo rsec lsec other cx u Hw Hrs Hls Hwf Hcx Hfit HA Hd Hs.
+  exact (WriterGlueProofs.list_attrs_roundtrip_v5_lemma dbg dbg' rdbg be fmt64 5 asz attrs rstart lstart rtbl ltbl rb lb ro lo
+           rsec lsec other cx u Hw Hrs Hls Hwf Hcx Hfit HA Hd eq_refl Hs).
+Qed.
+
+(* the same for DWARF 2-4 (.debug_ranges / .debug_loc), relative to the base address the reader derives from the root DIE *)
+Theorem ranges_locations_attr_roundtrip_v4 : forall (dbg dbg' rdbg be fmt64 : bool) (version asz : N) attrs (rstart lstart : N)
+    rtbl ltbl (rb lb : list byte) (ro lo : list N) (rsec lsec other : list byte) (cx : UnitWr.wcx) (u : ListsRd.uctx),
+  unit_write_lists be fmt64 version asz attrs rstart lstart rtbl ltbl = Ok ((rb, ro), (lb, lo)) ->
+  N.of_nat (length rsec) = rstart -> N.of_nat (length lsec) = lstart -> unit_wf rtbl ltbl ->
+  UnitWr.wc_enc cx = UnitWrSpec.mkEnc version fmt64 asz /\ UnitWr.wc_be cx = be /\ UnitWr.wc_rng cx = ro /\ UnitWr.wc_loc cx = lo ->
+  Forall (fun o => o < 2 ^ 64) (ro ++ lo) ->
+  AttrProofs.addr_size_ok (UnitRoundtrip.renc cx) -> ListsRd.u_dwo u = false -> 2 <= version <= 4 ->
+  (forall i l ops rest, nth_error rtbl i = Some l -> UnitWr.av_write dbg cx (UnitWr.AvRangeListRef i) = Ok ops ->
+     exists o val ps,
+       Attr.parse_attribute dbg' (UnitRoundtrip.renc cx)
+          (Attr.mkSpec 85 (fst (UnitWr.av_form (UnitWr.wc_enc cx) (UnitWr.AvRangeListRef i))) 0)
+          (UnitWr.ops_bytes ops ++ rest) = Ok (val, rest) /\
+       ListsRd.attr_ranges_offset u (WriterGlueProofs.lrd_aval (Attr.attr_normalise 85 val)) = Ok (Some o) /\
+       pairs_of (map loc_of_range l) = Some ps /\
+       ListsRd.raw_ranges_all rdbg (rd_cfg be asz version) (rsec ++ rb) other o = Ok (map ListsRd.EvItem (map tr_ent ps)) /\
+       forall x, N.of_nat (length (ListsRd.x_addr x)) < two64 ->
+         exists rs, meaning_rng asz (unit_base attrs) l = Some rs /\
+           ListsRd.ranges_all rdbg (rd_cfg be asz version) x (rsec ++ rb) other o (unit_base attrs) = Ok (map ListsRd.EvItem rs)) /\
+  (forall i l ops rest, nth_error ltbl i = Some l -> UnitWr.av_write dbg cx (UnitWr.AvLocationListRef i) = Ok ops ->
+     exists o val ps,
+       Attr.parse_attribute dbg' (UnitRoundtrip.renc cx)
+          (Attr.mkSpec 2 (fst (UnitWr.av_form (UnitWr.wc_enc cx) (UnitWr.AvLocationListRef i))) 0)
+          (UnitWr.ops_bytes ops ++ rest) = Ok (val, rest) /\
+       ListsRd.attr_locations_offset u (WriterGlueProofs.lrd_aval (Attr.attr_normalise 2 val)) = Ok (Some o) /\
+       pairs_of l = Some ps /\
+       ListsRd.raw_locations_all rdbg (rd_cfg be asz version) false (lsec ++ lb) other o = Ok (map ListsRd.EvItem (map tr_loc ps)) /\
+       forall x, N.of_nat (length (ListsRd.x_addr x)) < two64 ->
+         exists rs, meaning_loc asz (unit_base attrs) l = Some rs /\
+           ListsRd.locations_all rdbg (rd_cfg be asz version) false x (lsec ++ lb) other o (unit_base attrs) = Ok (map ListsRd.EvItem rs)).
+Proof.
+  intros dbg dbg' rdbg be fmt64 version asz attrs rstart lstart rtbl ltbl rb lb ro lo rsec lsec other cx u Hw Hrs Hls Hwf Hcx Hfit HA Hd Hv.
+  exact (WriterGlueProofs.list_attrs_roundtrip_v4_lemma dbg dbg' rdbg be fmt64 version asz attrs rstart lstart rtbl ltbl rb lb ro lo
+           rsec lsec other cx u Hw Hrs Hls Hwf Hcx Hfit HA Hd Hv).
+Qed.
+
+(* a DWARF 4 unit: two range lists, the second referenced by DW_AT_ranges: data written = 32 = the list writer's offset *)
+Definition gx_cx : UnitWr.wcx := UnitWr.mkWcx (UnitWrSpec.mkEnc 4 false 8) false 0 0 [] [] None [] [] [0; 32] [] 2.
+Example ranges_attr_roundtrip_ex :
+  (exists rb lb, unit_write_lists false false 4 8 [(DW_AT_low_pc, VAddress (AConst 4096))] 0 0
+                   [[ROffsetPair 1 2]; [ROffsetPair 3 9]] [] = Ok ((rb, [0; 32]), (lb, []))) /\
+  UnitWr.av_write true gx_cx (UnitWr.AvRangeListRef 1) = Ok [UnitWr.WB [x20; x00; x00; x00]] /\
+  Attr.attr_normalise 85 (FormSpec.VSecOffset 32) = FormSpec.VRangeListsRef 32 /\
+  AttrProofs.addr_size_ok (UnitRoundtrip.renc gx_cx).
+Proof.
+  split; [eexists; eexists; vm_compute; reflexivity|]. split; [vm_compute; reflexivity|].
+  split; [reflexivity|vm_compute; reflexivity].
+Qed.
+
+(* LocationListTable::write of the composed model (real expressions, fix-ups) = table_write of this property's model on the
+   raw view of the table (each expression replaced by the bytes it is written as: WriterGlueProofs.raw_rel): same bytes,
+   same LocationListOffsets.  Hence every theorem above about table_write / unit_write_lists applies to the location
+   lists the composed model writes. *)
+Theorem loc_table_write_composed : forall dbg oe uo hb start tbl bytes offs fx,
+  UnitGlueWr.gloc_table_write dbg oe uo hb start tbl = Ok (bytes, offs, fx) -> start + 20 + OpWr.blen bytes < 2 ^ 64 ->
+  exists rtbl, Forall2 (Forall2 (WriterGlueProofs.raw_rel dbg oe uo)) tbl rtbl /\
+    table_write true (OpWr.e_be oe) (OpWr.e_fmt64 oe) (OpWr.e_version oe) (OpWr.e_asize oe) hb start rtbl = Ok (bytes, offs).
+Proof. exact WriterGlueProofs.gloc_table_write_raw. Qed.
